@@ -4,4 +4,7 @@ set -e
 cd "$(dirname "$0")"
 export CARGO_NET_OFFLINE=true
 (cd sim && cargo build --release --offline)
+# the real binary, used by C13 thorough (byte comparison) and C17 (exit status): warm the cache;
+# ./check rebuilds it incrementally from /repo's working tree whenever it is needed
+cargo build --release --offline --manifest-path /repo/Cargo.toml --bin cargo-tauri-typegen --target-dir "$PWD/sim/target/repo-bin"
 ./sim/target/release/ttg-sim selfcheck "${1:-24}"
